@@ -116,3 +116,33 @@ Example C15_nonvacuous :
     Some [(Some Complete, []); (Some Complete, [0]); (Some Complete, [0]); (Some Active, [2]);
           (Some Active, [0]); (Some Waiting, [4]); (Some Waiting, [3])].
 Proof. vm_compute. repeat split; reflexivity. Qed.
+
+(* ---- what the columns MEAN for the workers --------------------------------------------------------------
+   The classification above, read off ANY reachable state [s] of the N-worker execution protocol
+   (Model/Exec.v: [st_view s] = which results are stored, [lk_view s] = the lock table), says what workers can
+   and cannot do in that state ([truth], Proofs/ExecStatusFacts.v):  complete - the function can never be started
+   again;  waiting - a direct dependency has no result and no worker can start the function now;  failed - no
+   worker can acquire the lock;  active - some worker holds the lock, being between get() and release() on
+   this task or having died there;  ready - any idle worker can, right now, take the lock, find the result missing
+   under the lock and call the function. *)
+From JugV Require Import Model.MapReduce Model.Slice Model.Deps Model.Exec Model.ExecCase Model.ExecExample
+  Proofs.ExecFacts Proofs.ExecTheorems Proofs.ExecStatusFacts.
+
+Theorem C15_columns_say_what_workers_can_do : forall (V : Type) (C : cfg V), framed C ->
+  forall r0 tr s, reach C r0 tr s ->
+  forall t nm, truth C s t (classify (st_view s) (lk_view s) (node_of C t nm)).
+Proof. exact (@status_tells_the_truth). Qed.
+Print Assumptions C15_columns_say_what_workers_can_do.
+
+(* non-vacuity: the three-task chain of Model/ExecExample.v while worker 0 is inside f1 (worker 1 lost the
+   lock): t1 is active, t2 and t3 wait; before anything happened t1 is ready; at the end all are complete *)
+Example C15_columns_nonvacuous :
+  (exists s, run (prog_cfg ex_prog) (init (Deps.st_of [])) ex_prefix_running = Some s /\
+     map (fun t => classify (st_view s) (lk_view s) (node_of (prog_cfg ex_prog) t 1%positive)) [1; 2; 3]%positive
+       = [Active; Waiting; Waiting]) /\
+  map (fun t => classify (st_view (init (Deps.st_of []))) (lk_view (@init val (Deps.st_of [])))
+                  (node_of (prog_cfg ex_prog) t 1%positive)) [1; 2; 3]%positive = [Ready; Waiting; Waiting] /\
+  (exists s, run (prog_cfg ex_prog) (init (Deps.st_of [])) ex_trace = Some s /\
+     map (fun t => classify (st_view s) (lk_view s) (node_of (prog_cfg ex_prog) t 1%positive)) [1; 2; 3]%positive
+       = [Complete; Complete; Complete]).
+Proof. split; [|split]; [eexists; vm_compute; split; reflexivity | vm_compute; reflexivity | eexists; vm_compute; split; reflexivity]. Qed.
